@@ -53,6 +53,7 @@ struct V<'a> {
     ctx: Arc<FaultCtx>,
     depth: usize,
     probe_all: bool,
+    rechecked: Mutex<BTreeSet<String>>,
     acc: Mutex<Acc>,
     cont_cfg: Cfg,
 }
@@ -87,9 +88,24 @@ impl V<'_> {
             } else {
                 f.key.clone()
             };
+            // harness determinism: the first case of every key is executed a second time
+            let mut note = "";
+            if self.rechecked.lock().unwrap().insert(key.clone()) {
+                let (mut again, fail) = replay_with(&lanes(self.codec), steps, fault_at, |s| {
+                    s.fault = Some(self.ctx.clone());
+                });
+                let keys: Vec<String> = match fail {
+                    Some((_, f2)) => f2.into_iter().map(|x| x.key).collect(),
+                    None if probe => again.probe().into_iter().map(|x| x.key).collect(),
+                    None => vec![],
+                };
+                if !keys.contains(&f.key) {
+                    note = " (NOT reproduced on a second execution)";
+                }
+            }
             self.rep.violation(Violation {
                 key,
-                what: format!("{} [{}]: {}", self.codec.name(), show_steps(steps), f.what),
+                what: format!("{} [{}]: {}{note}", self.codec.name(), show_steps(steps), f.what),
                 replay: case_json(self.codec, steps, fault_at, probe),
                 size: steps.len() * 1000
                     + steps
@@ -289,6 +305,7 @@ pub fn run(tier: Tier, args: &[String]) -> i32 {
             ctx: ctx.clone(),
             depth,
             probe_all,
+            rechecked: Mutex::new(BTreeSet::new()),
             acc: Mutex::new(Acc {
                 samples: Some(Samples::new(14)),
                 ..Default::default()
